@@ -89,22 +89,50 @@ def rule_a(ctx, ix):
                     hit = True
         ctx.ob(R, f.construct + ' ' + flag, 'the filter "%s" is applied exactly when %s' % (what, flag), hit,
                detail='utils.compute_statistic no longer narrows `keep` with the %s filter under `if %s`' % (what, flag), where=f.where)
-    # which table is used
-    uses = {}
+    # which table is used: the statement that picks the NaN-aware table runs on the filtered branch, the plain one on the other
+    picks = {}
     for st in walk_no_nested(f.node):
-        if isinstance(st, ast.Assign) and unparse(st.targets[0]) == 'function':
-            uses[unparse(st.value)] = [unparse(g.test) if br == 'body' else 'else:' + unparse(g.test)
-                                       for g, br in guard_chain(pm, st, f.node) if isinstance(g, ast.If)]
-    ok = 'NAN_FUNCTIONS[statistic]' in uses and 'PLAIN_FUNCTIONS[statistic]' in uses and \
-        not uses['NAN_FUNCTIONS[statistic]'][0].startswith('else:') and uses['PLAIN_FUNCTIONS[statistic]'][0].startswith('else:')
+        if isinstance(st, ast.Assign) and isinstance(st.targets[0], ast.Name):
+            for tab in ('NAN_FUNCTIONS', 'PLAIN_FUNCTIONS'):
+                v = st.value
+                if (isinstance(v, ast.Name) and v.id == tab) or (isinstance(v, ast.Subscript) and unparse(v.value) == tab):
+                    picks[tab] = (st, [('body' if br == 'body' else 'else') for g, br in guard_chain(pm, st, f.node) if isinstance(g, ast.If)],
+                                  [g for g, br in guard_chain(pm, st, f.node) if isinstance(g, ast.If)])
+    ok = set(picks) == {'NAN_FUNCTIONS', 'PLAIN_FUNCTIONS'}
+    if ok:
+        (sn, bn, gn), (sp, bp, gp) = picks['NAN_FUNCTIONS'], picks['PLAIN_FUNCTIONS']
+        ok = bool(gn) and bool(gp) and gn[0] is gp[0] and bn[0] == 'body' and bp[0] == 'else'
+        # ... and the table (or its entry) is subscripted with the statistic
+        names = {unparse(sn.targets[0]), unparse(sp.targets[0])}
+        direct = all(isinstance(st.value, ast.Subscript) and unparse(st.value.slice) == f.params[0] for st in (sn, sp))
+        later = len(names) == 1 and any(isinstance(x, ast.Subscript) and unparse(x.value) in names and unparse(x.slice) == f.params[0]
+                                        for x in ast.walk(f.node))
+        ok = ok and (direct or later)
     ctx.ob(R, f.construct + ' table choice', 'the NaN-aware reducer is used whenever values were filtered out', ok,
-           detail='utils.compute_statistic no longer selects NAN_FUNCTIONS on the filtered branch and PLAIN_FUNCTIONS otherwise: %s' % uses,
-           where=f.where)
-    pc = [c for c in calls_in(f.node) if unparse(c.func) == 'function']
-    ok = any(len(c.args) == 2 and unparse(c.args[1]) == 'percentile' for c in pc) and all(kwarg(c, 'axis') is not None and
-                                                                                         unparse(kwarg(c, 'axis')) == 'axis' for c in pc)
-    ctx.ob(R, f.construct + ' call', 'the reducer receives the axis (and the percentile for percentiles)', ok and len(pc) == 2,
-           detail='the reducer is not called as function(data[, percentile], axis=axis)', where=f.where)
+           detail='utils.compute_statistic no longer selects NAN_FUNCTIONS on the filtered branch and PLAIN_FUNCTIONS otherwise: %s'
+                  % {k: v[1] for k, v in picks.items()}, where=f.where)
+    # the reducer call: function(data[, percentile], axis=axis) - positional arguments may be passed as *args built per statistic
+    fname = None
+    for st in walk_no_nested(f.node):
+        if isinstance(st, ast.Assign) and isinstance(st.targets[0], ast.Name) and isinstance(st.value, ast.Subscript) \
+                and unparse(st.value.slice) == f.params[0]:
+            fname = st.targets[0].id
+    pc = [c for c in calls_in(f.node) if fname and unparse(c.func) == fname]
+    forms = []
+    for c in pc:
+        alts = [[]]
+        for a in c.args:
+            if isinstance(a, ast.Starred) and isinstance(a.value, ast.Name):
+                tuples = [st.value for st in walk_no_nested(f.node) if isinstance(st, ast.Assign) and unparse(st.targets[0]) == a.value.id
+                          and isinstance(st.value, ast.Tuple)]
+                alts = [x + [unparse(e) for e in t.elts] for x in alts for t in tuples] if tuples else [x + ['*' + a.value.id] for x in alts]
+            else:
+                alts = [x + [unparse(a)] for x in alts]
+        forms.extend((x, kwarg(c, 'axis') is not None and unparse(kwarg(c, 'axis')) == 'axis') for x in alts)
+    dname = f.params[1]
+    ok = bool(forms) and all(ax for x, ax in forms) and {tuple(x) for x, ax in forms} == {(dname,), (dname, 'percentile')}
+    ctx.ob(R, f.construct + ' call', 'the reducer receives the axis (and the percentile for percentiles)', ok,
+           detail='the reducer is not called as function(data[, percentile], axis=axis): %s' % [x for x, ax in forms], where=f.where)
 
 
 def rule_b(ctx, ix):
@@ -157,6 +185,21 @@ def rule_b(ctx, ix):
            detail='Data.compute_statistic does not accept %s' % [p for p in (base.params if base else []) if p not in f.params], where=f.where)
 
 
+def _first_axis_not_reduced(v):
+    """`[a for a in range(<ndim>) if a not in axis][0]` or `next(a for a in range(<ndim>) if a not in axis)`."""
+    comp = None
+    if isinstance(v, ast.Subscript) and isinstance(v.value, ast.ListComp) and isinstance(v.slice, ast.Constant) and v.slice.value == 0:
+        comp = v.value
+    elif isinstance(v, ast.Call) and unparse(v.func) == 'next' and len(v.args) == 1 and isinstance(v.args[0], (ast.GeneratorExp, ast.ListComp)):
+        comp = v.args[0]
+    if comp is None or len(comp.generators) != 1:
+        return False
+    g = comp.generators[0]
+    t = unparse(g.target)
+    return unparse(comp.elt) == t and unparse(g.iter).replace(' ', '') in ('range(self.ndim)', 'range(len(self.shape))') and \
+        len(g.ifs) == 1 and unparse(g.ifs[0]).replace(' ', '') == '%snotinaxis' % t
+
+
 def rule_c(ctx, ix):
     R = 'C10.c'
     ctx.describe(R, 'the chunk result is stored at the chunk\'s own index along the non-reduced axis', floor=4)
@@ -167,31 +210,48 @@ def rule_c(ctx, ix):
         raise AnalysisError('Data.compute_statistic: chunk loop not recognised')
     lp = loops[0]
     cv = unparse(lp.target)
+    # the name of the non-reduced axis: the index applied to the chunk view in the write-back `result[chunk_view[<name>]] = ...`
+    ai_name = None
+    for st in lp.body:
+        if isinstance(st, ast.Assign) and isinstance(st.targets[0], ast.Subscript):
+            sl = st.targets[0].slice
+            if isinstance(sl, ast.Subscript) and unparse(sl.value) == cv and isinstance(sl.slice, ast.Name):
+                ai_name = sl.slice.id
+    if ai_name is None:
+        wb = [st for st in lp.body if isinstance(st, ast.Assign) and isinstance(st.targets[0], ast.Subscript)]
+        if len(wb) == 1:
+            ctx.ob(R, f.construct + ' write-back', 'result[chunk_view[axis_index]] receives the values of that chunk', False,
+                   detail='the chunk loop stores `%s`: the statistic of a chunk lands at another position of the result' % norm(wb[0]),
+                   where=where(f, wb[0]))
+            return
+        raise AnalysisError('Data.compute_statistic: the write-back of the chunk loop is not `result[chunk_view[<axis>]] = ...`')
+    ai = [st for st in walk_no_nested(f.node) if isinstance(st, ast.Assign) and unparse(st.targets[0]) == ai_name]
     vals = [st for st in lp.body if isinstance(st, ast.Assign) and isinstance(st.value, ast.Call) and call_name(st.value) == 'compute_statistic']
     stores = [st for st in lp.body if isinstance(st, ast.Assign) and isinstance(st.targets[0], ast.Subscript)]
-    if len(vals) != 1 or len(stores) != 1:
+    if len(stores) != 1 or len(vals) != 1:
         raise AnalysisError('Data.compute_statistic: chunk loop body not recognised')
-    vname = unparse(vals[0].targets[0])
     idx = unparse(stores[0].targets[0].slice).replace(' ', '')
-    ok = unparse(stores[0].value) == vname and idx == '%s[axis_index]' % cv
+    direct = vals[0] is stores[0]         # result[...] = self.compute_statistic(...)
+    vname = None if direct else unparse(vals[0].targets[0])
+    ok = (direct or unparse(stores[0].value) == vname) and idx == '%s[%s]' % (cv, ai_name)
     ctx.ob(R, f.construct + ' write-back', 'result[chunk_view[axis_index]] receives the values of that chunk', ok,
            detail='the chunk loop stores `%s`: the statistic of a chunk lands at another position of the result' % norm(stores[0]),
            where=where(f, stores[0]))
-    ai = [st for st in walk_no_nested(f.node) if isinstance(st, ast.Assign) and unparse(st.targets[0]) == 'axis_index']
     txt = unparse(ai[0].value).replace(' ', '') if len(ai) == 1 else ''
     ctx.idiom(R, f.construct + ' axis_index', 'axis_index is the one axis that is not reduced',
-              accepted=txt in ('[aforainrange(self.ndim)ifanotinaxis][0]', 'next(aforainrange(self.ndim)ifanotinaxis)'),
+              accepted=_first_axis_not_reduced(ai[0].value) if len(ai) == 1 else False,
               absent=len(ai) != 1 or ('notinaxis' not in txt),
               detail_absent='axis_index is computed as %s: it no longer picks the axis that is not in `axis`' % (txt or None),
               shape=txt, where=f.where)
     res = [st for st in walk_no_nested(f.node) if isinstance(st, ast.Assign) and unparse(st.targets[0]) == unparse(stores[0].targets[0].value)
            and st.lineno < lp.lineno]
     res.sort(key=lambda st: -st.lineno)
-    ok = bool(res) and 'shape[axis_index]' in unparse(res[0].value)
+    ok = bool(res) and ('shape[%s]' % ai_name) in unparse(res[0].value)
     ctx.ob(R, f.construct + ' result shape', 'the result has the length of the non-reduced axis', ok,
            detail='the chunked result is allocated as %s' % (unparse(res[0].value) if res else None), where=f.where)
-    chunk = [st for st in walk_no_nested(f.node) if isinstance(st, ast.Assign) and unparse(st.targets[0]).replace(' ', '') == 'chunk_shape[axis_index]']
-    ok = 'chunk_shape=chunk_shape' in unparse(lp.iter).replace(' ', '') and len(chunk) == 1 and 'self.shape' in unparse(lp.iter)
+    chunk = [st for st in walk_no_nested(f.node) if isinstance(st, ast.Assign) and isinstance(st.targets[0], ast.Subscript) and unparse(st.targets[0].slice) == ai_name
+             and unparse(st.targets[0].value) == (unparse(kwarg(lp.iter, 'chunk_shape')) if isinstance(lp.iter, ast.Call) and kwarg(lp.iter, 'chunk_shape') is not None else '')]
+    ok = len(chunk) == 1 and 'self.shape' in unparse(lp.iter)
     ctx.ob(R, f.construct + ' chunking', 'chunks split only the non-reduced axis of the full shape', ok,
            detail='the chunk loop does not iterate iterate_chunks(self.shape, chunk_shape=...) with only axis_index reduced', where=where(f, lp))
     rets = [r for r in ast.walk(lp) if isinstance(r, ast.Return)]
@@ -272,16 +332,18 @@ def rule_d(ctx, ix):
                       'the resolution of the limit, and values equal to the upper limit are dropped'
                       % (var, norm(later[0]) if later else ''), where=where(f, nd))
     for c in hist:
-        pm_names = set()
-        for st in stmts:
-            if isinstance(st, ast.Assign) and unparse(st.targets[0]) == 'range' and st.lineno < c.lineno:
-                last = st
-                pm_names = {x.id for x in ast.walk(st.value) if isinstance(x, ast.Name)}
         need = {'xmin', 'xmax'} if call_name(c) == 'histogram1d' else {'xmin', 'xmax', 'ymin', 'ymax'}
         rng = [k.value for k in c.keywords if k.arg == 'range']
+        e = rng[0] if rng else None
+        if isinstance(e, ast.Name):
+            # the last assignment of that name before the call
+            defs = [st for st in stmts if isinstance(st, ast.Assign) and unparse(st.targets[0]) == e.id and st.lineno <= c.lineno]
+            e = defs[-1].value if defs else e
+        got = {x.id for x in ast.walk(e) if isinstance(x, ast.Name)} if e is not None else set()
         ctx.ob(R, '%s %s range' % (f.construct, call_name(c)), 'the binning routine receives the (transformed, widened) limits',
-               bool(rng) and unparse(rng[0]) == 'range' and need <= pm_names,
-               detail='Data.compute_histogram no longer hands %s to %s' % (sorted(need), call_name(c)), where=where(f, c))
+               need <= got,
+               detail='Data.compute_histogram no longer hands %s to %s (range=%s)' % (sorted(need), call_name(c), unparse(e) if e is not None else None),
+               where=where(f, c))
 
 
 # statistics whose value changes when every value is repeated the same number of times: a total does, and so does an
